@@ -1,7 +1,6 @@
 package rules
 
 import (
-	"encoding/binary"
 	"fmt"
 	"go/types"
 	"os"
@@ -442,63 +441,185 @@ func parseSchema(src string) map[string]schemaField {
 }
 
 func varsigTable(x *Ctx) {
-	f := x.fn("C06.R5", "token/internal/varsig.keyTypeToHeader")
+	f := x.fn("C06.R5", "token/internal/varsig.Encode")
 	if f == nil {
 		return
 	}
-	headers := map[string]string{} // key type const -> header bytes (hex)
+	// key type constant -> description of the header value: the helper that builds it and its constant
+	// segments ("header(52,4613,...)"), or a string constant. The table is read off Encode: a lookup in a
+	// package-level map (built by a map literal, in the initialiser or in the function that returns it), or one
+	// path per key type returning a package-level variable / a call / a constant.
+	headers := map[string]string{}
 	bad := ""
-	for _, b := range f.Blocks {
-		for _, in := range b.Instrs {
-			mu, ok := in.(*ssa.MapUpdate)
-			if !ok {
+	describe := func(v ssa.Value) string {
+		for {
+			if c, ok := v.(*ssa.Convert); ok {
+				v = c.X
 				continue
 			}
-			k, isC := mu.Key.(*ssa.Const)
-			call, isCall := mu.Value.(*ssa.Call)
-			if !isC || !isCall || paths.StaticCallee(call) == nil || paths.FuncName(paths.StaticCallee(call)) != "token/internal/varsig.header" {
-				bad += "map entry not of the form KeyType: header(consts...)\n"
+			if c, ok := v.(*ssa.ChangeType); ok {
+				v = c.X
 				continue
 			}
-			// varargs slice of constants
-			sl, okS := call.Call.Args[0].(*ssa.Slice)
-			if !okS {
-				bad += "header arguments are not a constant list\n"
-				continue
+			break
+		}
+		switch t := v.(type) {
+		case *ssa.Const:
+			if t.Value != nil {
+				return "const:" + t.Value.ExactString()
 			}
-			arr, okA := sl.X.(*ssa.Alloc)
-			if !okA {
-				bad += "header arguments are not a constant list\n"
-				continue
+		case *ssa.Call:
+			h := paths.StaticCallee(t)
+			if h == nil || !x.P.InModule(h) {
+				return ""
 			}
-			n := arrLen(arr)
-			vals := make([]uint64, n)
-			got := 0
-			for _, ref := range *arr.Referrers() {
-				ia, ok := ref.(*ssa.IndexAddr)
-				if !ok {
-					continue
-				}
-				idx, _ := ia.Index.(*ssa.Const)
-				for _, r2 := range *ia.Referrers() {
-					if st, ok := r2.(*ssa.Store); ok {
-						if c, ok := st.Val.(*ssa.Const); ok && idx != nil {
-							vals[idx.Int64()] = c.Uint64()
-							got++
+			var parts []string
+			for _, a := range t.Call.Args {
+				switch at := a.(type) {
+				case *ssa.Const:
+					parts = append(parts, at.Value.ExactString())
+				case *ssa.Slice:
+					arr, okA := at.X.(*ssa.Alloc)
+					if !okA {
+						return ""
+					}
+					n := arrLen(arr)
+					vals := make([]string, n)
+					got := 0
+					for _, ref := range *arr.Referrers() {
+						ia, ok := ref.(*ssa.IndexAddr)
+						if !ok {
+							continue
 						}
+						idx, _ := ia.Index.(*ssa.Const)
+						for _, r2 := range *ia.Referrers() {
+							if st, ok := r2.(*ssa.Store); ok {
+								if c, ok := st.Val.(*ssa.Const); ok && idx != nil {
+									vals[idx.Int64()] = c.Value.ExactString()
+									got++
+								}
+							}
+						}
+					}
+					if int64(got) != n {
+						return ""
+					}
+					parts = append(parts, vals...)
+				default:
+					return ""
+				}
+			}
+			return paths.FuncName(h) + "(" + strings.Join(parts, ",") + ")"
+		}
+		return ""
+	}
+	initStore := func(g *ssa.Global) ssa.Value {
+		var v ssa.Value
+		if init := g.Pkg.Func("init"); init != nil {
+			for _, b := range init.Blocks {
+				for _, in := range b.Instrs {
+					if st, ok := in.(*ssa.Store); ok && st.Addr == ssa.Value(g) {
+						v = st.Val
 					}
 				}
 			}
-			if int64(got) != n {
-				bad += "non-constant header element\n"
-				continue
-			}
-			var buf []byte
-			for _, v := range vals {
-				buf = binary.AppendUvarint(buf, v)
-			}
-			headers[k.Value.ExactString()] = fmt.Sprintf("%x", buf)
 		}
+		return v
+	}
+	mapEntries := func(g *ssa.Global) {
+		m := initStore(g)
+		if m == nil {
+			bad += "the header table " + g.Name() + " is not initialised by the package initialiser\n"
+			return
+		}
+		fn := g.Pkg.Func("init")
+		if c, ok := m.(*ssa.Call); ok {
+			if h := paths.StaticCallee(c); h != nil && len(h.Blocks) > 0 {
+				fn = h
+			}
+		}
+		for _, b := range fn.Blocks {
+			for _, in := range b.Instrs {
+				mu, ok := in.(*ssa.MapUpdate)
+				if !ok {
+					continue
+				}
+				k, isC := mu.Key.(*ssa.Const)
+				d := describe(mu.Value)
+				if !isC || d == "" {
+					bad += "map entry not of the form KeyType: <helper>(consts...) or a constant\n"
+					continue
+				}
+				headers[k.Value.ExactString()] = d
+			}
+		}
+	}
+	for _, p := range x.pathsQuiet(f) {
+		if o, _ := p.ErrorOutcome(); o != paths.Success || len(p.Results()) == 0 {
+			continue
+		}
+		r := p.Results()[0]
+		for r != nil && r.Op == "conv" && len(r.Args) == 1 {
+			r = r.Args[0]
+		}
+		// table lookup
+		if r.Op == "extract" && len(r.Args) == 1 && r.Args[0].Op == "lookup" && len(r.Args[0].Args) == 2 && r.Args[0].Args[1].String() == "arg0" {
+			mt := r.Args[0].Args[0]
+			if mt.Op == "load" && mt.Args[0].Op == "global" {
+				if g, ok := mt.Args[0].Val.(*ssa.Global); ok {
+					mapEntries(g)
+					continue
+				}
+			}
+			bad += "Encode looks the header up in " + mt.String() + ": not a package-level map\n"
+			continue
+		}
+		// one path per key type
+		key := ""
+		for _, fc := range p.Facts {
+			if fc.Pol && fc.Atom.Op == "eq" && len(fc.Atom.Args) == 2 {
+				a, b := fc.Atom.Args[0], fc.Atom.Args[1]
+				if a.Op == "const" {
+					a, b = b, a
+				}
+				if a.String() == "arg0" && b.Op == "const" {
+					key = b.Name
+				}
+			}
+		}
+		if key == "" {
+			bad += "a success path of Encode is not selected by the key type: returns " + r.String() + "\n"
+			continue
+		}
+		var v ssa.Value = r.Val
+		if r.Op == "load" && r.Args[0].Op == "global" {
+			if g, ok := r.Args[0].Val.(*ssa.Global); ok {
+				v = initStore(g)
+			}
+		}
+		d := ""
+		if v != nil {
+			d = describe(v)
+		}
+		if d == "" {
+			bad += "the header of key type " + key + " is " + r.String() + ": not a constant, nor a helper applied to constants (directly or through a package-level variable)\n"
+			continue
+		}
+		headers[key] = d
+	}
+	// all built the same way
+	helper := ""
+	for _, d := range headers {
+		h := d
+		if i := strings.Index(d, "("); i >= 0 && !strings.HasPrefix(d, "const:") {
+			h = d[:i]
+		} else {
+			h = "const"
+		}
+		if helper != "" && helper != h {
+			bad += "headers are built in different ways (" + helper + ", " + h + "): distinct segment lists do not imply distinct headers\n"
+		}
+		helper = h
 	}
 	seen := map[string]string{}
 	for k, h := range headers {
@@ -507,7 +628,7 @@ func varsigTable(x *Ctx) {
 		}
 		seen[h] = k
 	}
-	x.C.Obl("C06.R5", "headers-distinct", x.pos(f), fmt.Sprintf("the %d constant-folded varsig headers are pairwise distinct", len(headers)), bad == "" && len(headers) >= 4, bad+fmt.Sprint(headers))
+	x.C.Obl("C06.R5", "headers-distinct", x.pos(f), fmt.Sprintf("the %d varsig headers Encode can return are built by one helper from pairwise distinct constant segment lists", len(headers)), bad == "" && len(headers) >= 4, bad+fmt.Sprint(headers))
 	// key types accepted by did.FromPubKey
 	fp := x.fn("C06.R5", "did.FromPubKey")
 	if fp == nil {
